@@ -3,12 +3,12 @@
 package sets
 
 func init() {
-	vxRegister("H20sInt", H20sInt)
-	vxRegister("H20sIntQ", H20sIntQ)
-	vxRegister("H20sIntSeq", H20sIntSeq)
+	vxRegister("H20sStr", H20sStr)
+	vxRegister("H20sStrQ", H20sStrQ)
+	vxRegister("H20sStrSeq", H20sStrSeq)
 }
 
-func vxInInts(x int, l []int) bool {
+func vxInStrs(x string, l []string) bool {
 	r := false
 	for _, e := range l {
 		r = vxOr(r, e == x)
@@ -16,8 +16,8 @@ func vxInInts(x int, l []int) bool {
 	return r
 }
 
-// vxDistinctInts counts distinct values in l (forks on equality patterns).
-func vxDistinctInts(l []int) int {
+// vxDistinctStrs counts distinct values in l (forks on equality patterns).
+func vxDistinctStrs(l []string) int {
 	n := 0
 	for i, e := range l {
 		dup := false
@@ -34,39 +34,39 @@ func vxDistinctInts(l []int) int {
 	return n
 }
 
-func vxBuildInts(max int) ([]int, *IntSet) {
+func vxBuildStrs(max int) ([]string, *StringSet) {
 	n := vxChoice(max + 1)
-	elems := make([]int, n)
+	elems := make([]string, n)
 	for i := range elems {
-		elems[i] = int(vxInt64())
+		elems[i] = vxString(2)
 	}
-	return elems, NewIntSet(elems...)
+	return elems, NewStringSet(elems...)
 }
 
 const vxSetOps = 15
 
-// H20sInt: one step of every IntSet operation from an arbitrary state, checked
+// H20sStr: one step of every StringSet operation from an arbitrary state, checked
 // against the mathematical set model through a universally quantified probe.
-func H20sInt()  { h20sInt(3) }
-func H20sIntQ() { h20sInt(2) }
+func H20sStr()  { h20sStr(3) }
+func H20sStrQ() { h20sStr(2) }
 
-func h20sInt(max int) {
-	ae, A := vxBuildInts(max)
-	be, B := vxBuildInts(max)
-	x := int(vxInt64()) // probe
-	inA, inB := vxInInts(x, ae), vxInInts(x, be)
+func h20sStr(max int) {
+	ae, A := vxBuildStrs(max)
+	be, B := vxBuildStrs(max)
+	x := vxString(2) // probe
+	inA, inB := vxInStrs(x, ae), vxInStrs(x, be)
 	op := vxChoice(vxSetOps)
 	checkUnchanged := true
-	var res *IntSet
+	var res *StringSet
 	switch op {
 	case 0: // Insert
-		y, z := int(vxInt64()), int(vxInt64())
+		y, z := vxString(2), vxString(2)
 		A.Insert(y, z)
 		vxAssert("insert-membership", A.Contains(x) == vxOr(inA, vxOr(x == y, x == z)))
 		checkUnchanged = false
 		vxAssert("insert-B-unchanged", B.Contains(x) == inB)
 	case 1: // Delete
-		y := int(vxInt64())
+		y := vxString(2)
 		A.Delete(y)
 		vxAssert("delete-membership", A.Contains(x) == vxAnd(inA, x != y))
 		checkUnchanged = false
@@ -89,7 +89,7 @@ func h20sInt(max int) {
 		vxAssert("disjoint-sound", vxImplies(vxAnd(inA, inB), !d))
 		common := false
 		for _, e := range ae {
-			common = vxOr(common, vxInInts(e, be))
+			common = vxOr(common, vxInStrs(e, be))
 		}
 		vxAssert("disjoint-complete", d == !common)
 	case 7:
@@ -97,10 +97,10 @@ func h20sInt(max int) {
 		vxAssert("equal-sound", vxImplies(eq, inA == inB))
 		same := true
 		for _, e := range ae {
-			same = vxAnd(same, vxInInts(e, be))
+			same = vxAnd(same, vxInStrs(e, be))
 		}
 		for _, e := range be {
-			same = vxAnd(same, vxInInts(e, ae))
+			same = vxAnd(same, vxInStrs(e, ae))
 		}
 		vxAssert("equal-complete", eq == same)
 	case 8:
@@ -109,22 +109,22 @@ func h20sInt(max int) {
 	case 9:
 		vxAssert("contains", A.Contains(x) == inA)
 	case 10:
-		vxAssert("len", A.Len() == vxDistinctInts(ae))
+		vxAssert("len", A.Len() == vxDistinctStrs(ae))
 		vxAssert("empty", A.Empty() == (len(ae) == 0))
 	case 11:
 		el := A.Elements()
 		vxAssert("elements-nonnil", el != nil)
-		vxAssert("elements-len", len(el) == vxDistinctInts(ae))
-		vxAssert("elements-membership", vxInInts(x, el) == inA)
+		vxAssert("elements-len", len(el) == vxDistinctStrs(ae))
+		vxAssert("elements-membership", vxInStrs(x, el) == inA)
 	case 12:
 		el := A.Sorted()
-		vxAssert("sorted-len", len(el) == vxDistinctInts(ae))
-		vxAssert("sorted-membership", vxInInts(x, el) == inA)
+		vxAssert("sorted-len", len(el) == vxDistinctStrs(ae))
+		vxAssert("sorted-membership", vxInStrs(x, el) == inA)
 		for i := 1; i < len(el); i++ {
 			vxAssert("sorted-ascending", el[i-1] < el[i])
 		}
 	case 13: // nil operand conventions
-		var nilSet *IntSet
+		var nilSet *StringSet
 		vxAssert("union-nil", A.Union(nilSet).Contains(x) == inA)
 		vxAssert("intersect-nil", !A.Intersect(nilSet).Contains(x))
 		vxAssert("difference-nil", A.Difference(nilSet).Contains(x) == inA)
@@ -133,7 +133,7 @@ func h20sInt(max int) {
 		vxAssert("equal-nil", !A.Equal(nilSet))
 		vxAssert("copy-nil", nilSet.Copy().Len() == 0)
 	case 14: // results of binary operations are fresh: mutating them leaves the operands alone
-		y := int(vxInt64())
+		y := vxString(2)
 		which := vxChoice(5)
 		switch which {
 		case 0:
@@ -158,8 +158,8 @@ func h20sInt(max int) {
 	if checkUnchanged {
 		vxAssert("operand-A-unchanged", A.Contains(x) == inA)
 		vxAssert("operand-B-unchanged", B.Contains(x) == inB)
-		vxAssert("operand-A-len", A.Len() == vxDistinctInts(ae))
-		vxAssert("operand-B-len", B.Len() == vxDistinctInts(be))
+		vxAssert("operand-A-len", A.Len() == vxDistinctStrs(ae))
+		vxAssert("operand-B-len", B.Len() == vxDistinctStrs(be))
 	}
 	if res != nil {
 		vxAssert("result-fresh", res != A && res != B)
@@ -167,19 +167,19 @@ func h20sInt(max int) {
 	vxCover("end")
 }
 
-// H20sIntSeq: sequences of three mutating operations on one set, against a list model.
-func H20sIntSeq() {
-	S := NewIntSet()
-	var model []int // multiset of inserted-and-not-deleted values
-	x := int(vxInt64())
+// H20sStrSeq: sequences of three mutating operations on one set, against a list model.
+func H20sStrSeq() {
+	S := NewStringSet()
+	var model []string // of inserted-and-not-deleted values
+	x := vxString(2)
 	for step := 0; step < 3; step++ {
-		y := int(vxInt64())
+		y := vxString(2)
 		if vxBool() {
 			S.Insert(y)
 			model = append(model, y)
 		} else {
 			S.Delete(y)
-			var nm []int
+			var nm []string
 			for _, e := range model {
 				if e != y {
 					nm = append(nm, e)
@@ -187,8 +187,8 @@ func H20sIntSeq() {
 			}
 			model = nm
 		}
-		vxAssert("seq-membership", S.Contains(x) == vxInInts(x, model))
-		vxAssert("seq-len", S.Len() == vxDistinctInts(model))
+		vxAssert("seq-membership", S.Contains(x) == vxInStrs(x, model))
+		vxAssert("seq-len", S.Len() == vxDistinctStrs(model))
 	}
 	vxCover("end")
 }
